@@ -28,6 +28,23 @@ class ProgressBound(Exception):
     "the deterministic round bound was exceeded: a termination violation"
 
 
+MAX_BITS = 3000      # rational Meek: denominators double every iteration; beyond ~900 digits a single step takes seconds
+
+
+def budget_prog(E, counter, iter_budget=12):
+    """replacement for Election.prog (called once per Meek iteration when V.exact): counts iterations and enforces the
+    deterministic budget for rational arithmetic - iteration count and size of the quota's denominator (never a clock)"""
+    rational = E.V.name == 'rational'
+
+    def prog(msg):
+        if msg == '.':
+            counter[0] += 1
+            if rational and iter_budget is not None:
+                if counter[0] > iter_budget or getattr(E.quota, 'denominator', 1).bit_length() > MAX_BITS:
+                    raise BudgetExceeded()
+    return prog
+
+
 def innermost_droop_frame(exc):
     "file:function of the innermost traceback frame that lies in the droop package"
     tb = traceback.extract_tb(exc.__traceback__)
@@ -126,11 +143,8 @@ def run(case, snap=False, renders=False, iter_budget=12, text=None, bound=True, 
     orig_log = E.logAction
     rational = E.V.name == 'rational'
 
-    def prog(msg):
-        if msg == '.':
-            o.iterations += 1
-            if rational and iter_budget is not None and o.iterations > iter_budget:
-                raise BudgetExceeded()
+    counter = [0]
+    prog = budget_prog(E, counter, iter_budget)
 
     def logAction(action, msg):
         orig_log(action, msg)
@@ -152,6 +166,7 @@ def run(case, snap=False, renders=False, iter_budget=12, text=None, bound=True, 
         o.budget_hit = True
     except Exception as exc:     # pylint: disable=broad-except
         o.exc = exc
+    o.iterations = counter[0]
     rec = E.erecord
     o.record = rec
     if decode:
